@@ -31,6 +31,10 @@ def run(rep, idx, tier):
     from .c02 import query_coherence
     query_coherence(rep, idx, rule="C07.2", only=("window_patterns", "windows", "get", "overlaps", "items"))
     glue.pairwise_reductions(rep, "C07.4", idx, "wishbone/bus.py")
+    # the map a Wishbone interface accepts has exactly the bus geometry (granularity, address bits incl. the granularity bits)
+    rep.require("C07.7", 5)
+    from .c01 import setters
+    setters(rep, idx, rule="C07.7", only="wishbone/bus")
     if not require_supported(rep, "C07.1", c):
         return
     r = glue.decoder_roles(rep, "C07.2", c, "self.bus.adr")
